@@ -1,14 +1,22 @@
 ---- MODULE TraceSelect ----
 (* Trace specification for C17.  One Reset-delimited block per point set.                                  *)
-(*   Points {X[][], exact}                integer coordinates; exact = 1: TLC recomputes every distance      *)
+(*   Points {X[][], exact, off[], sexp}   integer coordinates x; the matrix handed to the library is         *)
+(*                                        a_ij = off_j + x_ij * 10^sexp  (classes K3 / K4, Affine.tla);      *)
+(*                                        exact = 1: TLC recomputes every distance from x                    *)
 (*   Ranks  {metric, R[][], c[]}          dense ranks of the pairwise distances as the library defines them  *)
 (*                                        (metric 0 Euclidean, 1 Manhattan, 2 cosine) and of the distances   *)
-(*                                        to the centroid; exact = 1 and metric < 2: checked against X       *)
+(*                                        to the centroid; exact = 1 and metric < 2: checked against X.      *)
+(*                                        Translated / scaled data: c = the centroid distances of the stored *)
+(*                                        doubles on a scale on which the largest is 1e9                     *)
 (*   Sel    {method, metric, n, th, seq[]} selection returned by MDC / MaxDis / MaxDis_Fast / KMeansppCenters *)
 (*                                        (objects numbered from 1; 0 = not a valid object number)           *)
-(*   Km     {k, init, th, labels[], cnt[], cnum[][], cerr, slack, conv}   one KMeans() result               *)
+(*   Km     {k, init, th, labels[], cnt[], cnum[][], cerr, cres[], slack, conv, reuse}   one KMeans() result *)
 (*   KmTh   {k, init, th, same}           labels and centroids bit-identical to the one-thread run           *)
-(* Prop* = what C17 states; Impl* = the code's lowest-index tie-break (switched off by PropOnly).            *)
+(*   KmRe   {k, init, same}               the same call into outputs already sized for another k: identical  *)
+(*   Hist   {same}                        class K7: a point set run again after another shape in the same    *)
+(*                                        process returned exactly what it returned the first time          *)
+(* Prop* = what C17 states; Impl* = the code's lowest-index tie-break, determinism under reuse / history     *)
+(* (switched off by PropOnly).                                                                               *)
 EXTENDS Select, TraceBase
 CONSTANTS PropOnly,
           TolExact,      \* 1e-12 units: centroid * count is an integer sum                  1000 = 1e-9
@@ -17,7 +25,8 @@ VARIABLES l, st
 tvars == <<phase, X, n, metric, l, st>>
 Ev == Tr[l]
 NoRanks == [m \in 0..2 |-> <<>>]
-St0 == [exact |-> 0, R |-> NoRanks, c |-> <<>>, prev |-> [metric |-> -1, n |-> 0, seq |-> <<>>]]
+St0 == [exact |-> 0, R |-> NoRanks, c |-> <<>>, prev |-> [metric |-> -1, n |-> 0, seq |-> <<>>],
+        aff |-> 0, mos |-> 0, mabs |-> 0, rng |-> 1]
 
 TInit == l = 1 /\ phase = "trace" /\ X = <<>> /\ n = 0 /\ metric = 0 /\ st = St0
 Step == l' = l + 1
@@ -25,10 +34,18 @@ Keep == UNCHANGED <<phase, n, metric>>
 
 TReset == /\ l <= Len(Tr) /\ Ev.e = "Reset" /\ Step /\ Keep /\ X' = <<>> /\ st' = St0
 
+\* the affine class is derived from the logged offsets and scale exponent, never from a flag
+EvAff == Has(Ev, "off") /\ Has(Ev, "sexp") /\ IsAffine(Ev.off, Ev.sexp)
 TPoints == /\ l <= Len(Tr) /\ Ev.e = "Points" /\ Step /\ Keep
            /\ Len(Ev.X) >= 1
            /\ X' = Ev.X
-           /\ st' = [St0 EXCEPT !.exact = Ev.exact]
+           /\ EvAff => /\ AffineAdmissible(Ev.X, Ev.off, Ev.sexp)
+                       /\ Ev.exact = 1 => ExactAffineOk(Ev.X, Ev.off, Ev.sexp)
+           /\ st' = IF EvAff THEN [St0 EXCEPT !.exact = Ev.exact, !.aff = 1,
+                                              !.mos = MagOverScale(Ev.X, Ev.off, Ev.sexp),
+                                              !.mabs = MagAbs(Ev.X, Ev.off, Ev.sexp),
+                                              !.rng = RangeMax(Ev.X)]
+                    ELSE [St0 EXCEPT !.exact = Ev.exact]
 
 \* logged distance ranks; where TLC can recompute the distances the ranks must code them faithfully
 TRanks == /\ l <= Len(Tr) /\ Ev.e = "Ranks" /\ Step /\ Keep /\ UNCHANGED X
@@ -41,7 +58,11 @@ TRanks == /\ l <= Len(Tr) /\ Ev.e = "Ranks" /\ Step /\ Keep /\ UNCHANGED X
 
 IsMaxMin(ev) == ev.method \in {"MaxDis", "MaxDis_Fast"}
 UseX(ev) == st.exact = 1 /\ ev.metric < 2
-PropFirst(ev) == IF UseX(ev) THEN FirstOk(X, ev.seq) ELSE FirstOkR(st.c, ev.seq)
+\* first pick: an object farthest from the centroid.  Translated / scaled data in rank mode: within the representability
+\* tolerance FirstTolQ (a function of the logged offsets, scale and ranges) of the largest logged centroid distance
+PropFirst(ev) == IF UseX(ev) THEN FirstOk(X, ev.seq)
+                 ELSE IF st.aff = 1 THEN FirstOkQ(st.c, ev.seq, FirstTolQ(Len(X), st.mos, st.rng))
+                 ELSE FirstOkR(st.c, ev.seq)
 PropGreedy(ev) == IF UseX(ev) THEN GreedyOk(ev.metric, X, ev.seq) ELSE GreedyOkR(st.R[ev.metric], ev.seq)
 \* both implementations return the same sequence (MaxDis is logged first, the MaxDis_Fast runs follow it)
 PropAgree(ev) == ev.method = "MaxDis_Fast" => (st.prev.metric = ev.metric /\ st.prev.n = ev.n /\ st.prev.seq = ev.seq)
@@ -57,19 +78,32 @@ TSel == /\ l <= Len(Tr) /\ Ev.e = "Sel" /\ Step /\ Keep /\ UNCHANGED X
 \* k-means: labels in range, centroid = mean of its members (exact on integer data), nearest centroid up to the
 \* documented tolerance: the centroids moved < 1e-3 per coordinate in the last step, so
 \*   d(x, c_label) <= min_c d(x, c) + 2 sqrt(dim) 1e-3   (only claimed when the run converged before the iteration cap)
+\* The 1e-3 is ABSOLUTE (EpsUnits, in the units of the matrix the library sees) whatever the location and the magnitude of
+\* the data; translated / scaled data only add the representability terms of Affine.tla.
+MeanResidualOk == IF st.aff = 1 THEN \A c \in 1..Ev.k : Ev.cnt[c] > 0 => Ev.cres[c] <= TolMeanAff(Ev.cnt[c], st.mos)
+                  ELSE Ev.cerr <= TolExact
+NearestOk == IF st.aff = 1 THEN SlackWithin(Ev.slack, Len(X[1]), EpsUnits, RepSlack6(st.mabs, Len(X[1])))
+             ELSE Ev.slack * Ev.slack <= 4 * Len(X[1]) * EpsUnits * EpsUnits
 TKm == /\ l <= Len(Tr) /\ Ev.e = "Km" /\ Step /\ Keep /\ UNCHANGED <<X, st>>
        /\ Ev.k \in 1..Len(X)
        /\ Len(Ev.labels) = Len(X)
        /\ LabelsInRange(Ev.labels, Ev.k)
        /\ Len(Ev.cnt) = Ev.k /\ Len(Ev.cnum) = Ev.k
        /\ CentroidIsMean(X, Ev.labels, Ev.k, Ev.cnt, Ev.cnum)
-       /\ Ev.cerr <= TolExact
-       /\ Ev.conv = 1 => Ev.slack * Ev.slack <= 4 * Len(X[1]) * EpsUnits * EpsUnits
+       /\ st.aff = 1 => Len(Ev.cres) = Ev.k
+       /\ MeanResidualOk
+       /\ Ev.conv = 1 => NearestOk
 
 TKmTh == /\ l <= Len(Tr) /\ Ev.e = "KmTh" /\ Step /\ Keep /\ UNCHANGED <<X, st>>
          /\ Ev.same = 1
 
-TNext == TReset \/ TPoints \/ TRanks \/ TSel \/ TKm \/ TKmTh
+\* class K7 (Impl layer: the statement is about every single result, which the Km events of these runs are held to)
+TKmRe == /\ l <= Len(Tr) /\ Ev.e = "KmRe" /\ Step /\ Keep /\ UNCHANGED <<X, st>>
+         /\ PropOnly \/ Ev.same = 1
+THist == /\ l <= Len(Tr) /\ Ev.e = "Hist" /\ Step /\ Keep /\ UNCHANGED <<X, st>>
+         /\ PropOnly \/ Ev.same = 1
+
+TNext == TReset \/ TPoints \/ TRanks \/ TSel \/ TKm \/ TKmTh \/ TKmRe \/ THist
 TSpec == TInit /\ [][TNext]_tvars
 TraceAccepted == Accepted
 Diag == ShowCursor(l)
